@@ -3,6 +3,10 @@
 import json
 props=[json.loads(l) for l in open('/verif/properties.jsonl')]
 claimed={
+ "C10": dict(level="model_checking",
+   text="Each single-element entry point runs from SSA on every small single-document reference graph; the result, placed back into its root, must be bisimilar to the original element, leave only cycle cut-points that resolve against the root, and the root's JSON and the caller's options must be unchanged.",
+   note="Trusted: as C02. Bounds: 2 definitions, 1 parameter/response hop, 8 entry-point variants.",
+   design="4 C10", technique="bounded symbolic execution of go/ssa over exhaustively enumerated small reference graphs + SMT (z3), counterexample replay"),
  "C18": dict(level="model_checking",
    text="ExpandSchemaWithBasePath runs from SSA on small multi-document worlds under four cache regimes; which documents are pre-loaded is a vector of solver bits decided lazily, so one path covers every pre-load subset it never looked at. Result equality with the cache-less run and the at-most-once / never-if-cached loader discipline are asserted on the recorded call log.",
    note="Trusted: as C02. Bounds: 3 documents, 3 slots, one reuse step.",
